@@ -94,6 +94,29 @@ def explore(ctx, depth):
     docrun.run_option_sets(ctx, cases, combos, sels,
                            'export with spine selection + category filter + encoding is not the composition of the three single transformations',
                            'composition (grid oracle)', nontriv=nt)
+    # (b2) free text with the two separator characters ('@', U+00B7): what the property says about such cells is the open finding F10 (C03 / C04 /
+    # C12); here only the correspondence with the model is checked, under every encoding and a few selections
+    import copy as _copy
+    sep_docs = []
+    for case in cases[:6 if depth == 'quick' else 40]:
+        if case.doc is None or not any(h != '**kern' for h in case.adoc['headers']):
+            continue
+        v = _copy.deepcopy(case.adoc)
+        k = 0
+        for row in v['rows']:
+            if row['kind'] == 'cells' and row['rk'] == 'data':
+                for c in row['cells']:
+                    if c['k'] == 'other' and c.get('kind') in ('lyrics', 'dynamics', 'harmony', 'fingering', 'otherText') and k < 3:
+                        c['text'] = ['col\u00b7le', 'a@b', 'x\u00b7@y'][k]
+                        k += 1
+        if k:
+            sep_docs.append(v)
+    if sep_docs:
+        sep_cases = docrun.make_cases(ctx, 0, docs=sep_docs)
+        docrun.run_option_sets(ctx, sep_cases, [{'enc': e, 'include': None, 'exclude': None} for e in ('kern', 'ekern', 'bkern', 'bekern', 'akern', 'aekern')] +
+                               [{'enc': 'kern', 'include': None, 'exclude': [TC.DECORATION]}],
+                               lambda case: [{}, {'ids': [0]}], 'export of a document with separator characters in free text differs from the model',
+                               'separator characters in free text (correspondence only)', spec=False)
     # (c) text-level compositions on the implementation itself
     for case in cases:
         if case.doc is None:
